@@ -310,5 +310,190 @@ theorem delta_zero (st : Settings) (txns : List Txn) (hwf : PostsWF (postsOf txn
       simp [BPost.key, hcomm p hp, hc]
     rw [hf]; rfl
 
+/-! ### no error when the chart is closed (stretch) -/
+
+theorem map_ne_err {α β} (f : α → β) (x : Outcome α) (h : x ≠ .err) : x.map f ≠ .err := by
+  cases x <;> simp_all [Outcome.map]
+
+theorem bubbleUp_ne_err (st : Settings) (sums : List (AKey × Dec)) :
+    ∀ (fuel : Nat) (me : AKey × Dec),
+      (∀ q : Path, q ≠ [] → q <+: me.1.2 → q ≠ me.1.2 → ∃ r, st.getTxnAccount q me.1.1 = .ok r) →
+      bubbleUp st sums fuel me ≠ .err := by
+  intro fuel
+  induction fuel with
+  | zero => intro me _; simp [bubbleUp]
+  | succ fuel ih =>
+    intro me hcl
+    simp only [bubbleUp]
+    split
+    · simp
+    · rename_i hroot
+      have hpar : ∀ (g : AKey × Dec), g.1 = (me.1.1, parentPath me.1.2) → bubbleUp st sums fuel g ≠ .err := by
+        intro g hg
+        apply ih g
+        intro q hq hpre hne
+        have hg1 : g.1.1 = me.1.1 := by rw [hg]
+        have hg2 : g.1.2 = parentPath me.1.2 := by rw [hg]
+        rw [hg1]
+        rw [hg2] at hpre hne
+        refine hcl q hq (hpre.trans (List.dropLast_prefix _)) ?_
+        intro e
+        have h1 := hpre.length_le
+        rw [e, length_parent] at h1
+        have : 1 ≤ me.1.2.length := by omega
+        omega
+      split
+      · rename_i p hfind
+        have hpk : p.1 = (me.1.1, parentPath me.1.2) := by
+          have := List.find?_some hfind
+          simpa [isParentOf_iff] using this
+        exact map_ne_err _ _ (hpar p hpk)
+      · split
+        · rename_i herr
+          obtain ⟨r, hr⟩ := hcl (parentPath me.1.2) (parent_nonempty hroot) (List.dropLast_prefix _) (by
+            intro e
+            have := congrArg List.length e
+            rw [length_parent] at this
+            omega)
+          rw [hr] at herr; cases herr
+        · simp
+        · exact map_ne_err _ _ (hpar _ rfl)
+
+theorem bubbleAll_ne_err (st : Settings) (sums : List (AKey × Dec)) :
+    ∀ (l : List (AKey × Dec)),
+      (∀ s ∈ l, ∀ q : Path, q ≠ [] → q <+: s.1.2 → q ≠ s.1.2 → ∃ r, st.getTxnAccount q s.1.1 = .ok r) →
+      bubbleAll st sums l ≠ .err := by
+  intro l
+  induction l with
+  | nil => intro _; simp [bubbleAll]
+  | cons s rest ih =>
+    intro hcl
+    simp only [bubbleAll]
+    split
+    · rename_i herr
+      exact absurd herr (bubbleUp_ne_err st sums _ s (hcl s List.mem_cons_self))
+    · simp
+    · split
+      · rename_i herr
+        exact absurd herr (ih (fun s' hs' => hcl s' (List.mem_cons_of_mem _ hs')))
+      · simp
+      · simp
+
+/-- **balance_ok_of_closed**: if the settings know every proper ancestor of every posted account in the
+    posting's commodity (`get_txn_account` succeeds: the chart of accounts is ancestor-closed, which the
+    load path establishes — lax mode creates the parents, strict mode the synthetic parents), the balance
+    kernel does not fail. -/
+theorem balance_ok_of_closed (st : Settings) (posts : List BPost) (hwf : PostsWF posts)
+    (hclosed : ∀ p ∈ posts, ∀ q : Path, q ≠ [] → q <+: p.acct → q ≠ p.acct →
+      ∃ r, st.getTxnAccount q p.comm = .ok r) :
+    balance st posts ≠ .err := by
+  unfold balance
+  split
+  · simp
+  · rename_i sums hsums
+    have hA := accountSums_spec posts hwf sums hsums
+    have hne : completeTree st sums ≠ .err := by
+      unfold completeTree
+      apply map_ne_err
+      apply bubbleAll_ne_err
+      intro s hs q hq hpre hneq
+      obtain ⟨p, hp, hpk⟩ := (hA.keys s.1).mp (List.mem_map.mpr ⟨s, hs, rfl⟩)
+      have e1 : p.comm = s.1.1 := by rw [← hpk]; rfl
+      have e2 : p.acct = s.1.2 := by rw [← hpk]; rfl
+      rw [← e1]
+      exact hclosed p hp q hq (by rw [e2]; exact hpre) (by rw [e2]; exact hneq)
+    split
+    · rename_i herr; exact absurd herr hne
+    · simp
+    · split <;> simp
+
+/-! ### non-vacuity: a concrete journal with a gap and two commodities
+
+```
+2024-01-01                      2024-01-02
+ a      2    EUR                 a:b:c   7 USD
+ a:b:c  1.50 EUR                 a:bc   -7 USD
+ e     -3.50 EUR
+```
+(`corpus/C02/example-gap-two-commodities.json` runs the same journal through the implementation.) -/
+
+def dd (n : Int) (s : Nat) : Dec := ⟨decide (n < 0), n.natAbs, s⟩
+def hdr0 : Header := ⟨⟨0, 0⟩, none, none, none, none, none, none⟩
+def mkP (a : Path) (c : String) (v : Dec) : Posting := ⟨a, c, v, v, false, c, none⟩
+def txns0 : List Txn := [
+  ⟨hdr0, [mkP ["a"] "EUR" (dd 2 0), mkP ["a","b","c"] "EUR" (dd 150 2), mkP ["e"] "EUR" (dd (-350) 2)]⟩,
+  ⟨hdr0, [mkP ["a","b","c"] "USD" (dd 7 0), mkP ["a","bc"] "USD" (dd (-7) 0)]⟩]
+/-- the settings after loading that journal in lax mode without charts -/
+def st0 : Settings := Settings.ofConfig false false true [["a","b","c"],["e"],["a","bc"]] ["EUR","USD"] []
+def posts0 : List BPost := postsOf txns0
+def sums0 : List (AKey × Dec) := [(("EUR",["a"]), dd 2 0), (("EUR",["a","b","c"]), dd 150 2),
+  (("EUR",["e"]), dd (-350) 2), (("USD",["a","b","c"]), dd 7 0), (("USD",["a","bc"]), dd (-7) 0)]
+def complete0 : List (AKey × Dec) := [(("EUR",["a"]), dd 2 0), (("EUR",["a","b"]), Dec.zero),
+  (("EUR",["a","b","c"]), dd 150 2), (("EUR",["e"]), dd (-350) 2),
+  (("USD",["a"]), Dec.zero), (("USD",["a","b"]), Dec.zero), (("USD",["a","b","c"]), dd 7 0),
+  (("USD",["a","bc"]), dd (-7) 0)]
+/-- own sum, tree sum: `a` 2 / 3.50 EUR, gap `a:b` 0 / 1.50 EUR, …, gap `a` 0 / 0 USD, gap `a:b` 0 / 7 USD -/
+def rows0 : List BalRow := [
+  ⟨["a"], "EUR", dd 2 0, dd 350 2⟩, ⟨["a","b"], "EUR", Dec.zero, dd 150 2⟩,
+  ⟨["a","b","c"], "EUR", dd 150 2, dd 150 2⟩, ⟨["e"], "EUR", dd (-350) 2, dd (-350) 2⟩,
+  ⟨["a"], "USD", Dec.zero, dd 0 0⟩, ⟨["a","b"], "USD", Dec.zero, dd 7 0⟩,
+  ⟨["a","b","c"], "USD", dd 7 0, dd 7 0⟩, ⟨["a","bc"], "USD", dd (-7) 0, dd (-7) 0⟩]
+
+theorem ex_sorted_posts : posts0.mergeSort (fun a b => keyLe a.key b.key) = posts0 :=
+  List.mergeSort_of_pairwise (by decide)
+theorem ex_sums : accountSums posts0 = some sums0 := by
+  unfold accountSums; rw [ex_sorted_posts]; decide
+theorem ex_complete : completeTree st0 sums0 = .ok complete0 := by decide
+theorem ex_walk : flattenOpt ((complete0.filter (fun s => s.1.2.length == 1)).map
+    (treeNodes complete0 (maxDepth complete0 + 1))) = some rows0 := by decide
+theorem ex_sorted_rows : rows0.mergeSort (fun a b => keyLe a.key b.key) = rows0 :=
+  List.mergeSort_of_pairwise (by decide)
+
+/-- the kernel is inside the exact domain on this journal and yields the expected figures -/
+theorem ex_balance : balance st0 posts0 = .ok rows0 := by
+  unfold balance
+  rw [ex_sums]; simp only
+  rw [ex_complete]; simp only
+  rw [ex_walk]; simp only
+  rw [ex_sorted_rows]
+
+/-- both deltas are zero (`0.00 EUR`, `0 USD`) -/
+theorem ex_fromIter : fromIter st0 (fun _ => true) posts0
+    = .ok ⟨rows0, [("EUR", dd 0 2), ("USD", dd 0 0)]⟩ := by
+  unfold fromIter
+  rw [ex_balance]; simp only
+  decide
+
+/-- the hypotheses of the theorems hold for it -/
+example : PostsWF posts0 := by
+  refine ⟨by decide, by decide, namesInj_of_good posts0 ?_⟩
+  intro x hx c hc
+  have : ∀ x ∈ posts0, ∀ c ∈ x.acct, c ≠ "" ∧ ':' ∉ c.toList := by decide
+  exact this x hx c hc
+example : ∀ t ∈ txns0, C01.Balanced t := by
+  intro t ht
+  simp only [txns0, List.mem_cons, List.mem_nil_iff, or_false] at ht
+  rcases ht with rfl | rfl
+  · exact ⟨"EUR", by decide, by decide⟩
+  · exact ⟨"USD", by decide, by decide⟩
+example : ∀ t ∈ txns0, ∀ p ∈ t.posts, p.comm = p.txnComm := by decide
+/-- the figures: gap `a:b` has own 0 and tree 1.50 EUR; `a` has tree 2 + 1.50 = 3.50 EUR -/
+example : (rows0.map (fun r => (r.comm, acctName r.acct, r.own.units, r.tree.units))).take 2
+    = [("EUR", "a", 2 * 10^28, 35 * 10^27), ("EUR", "a:b", 0, 15 * 10^27)] := by decide
+/-- a selector listing only `a:b:c`: deltas are the listed own sums, 1.50 EUR and 7 USD -/
+example : (fromIter st0 (fun r => acctName r.acct == "a:b:c") posts0).map (·.deltas)
+    = .ok [("EUR", dd 150 2), ("USD", dd 7 0)] := by
+  unfold fromIter
+  rw [ex_balance]; simp only
+  decide
+
+/-- regression witness of F8 (fixed in the tree: ordered set instead of a hash set): the children of `a`
+    are summed in key order, so the tree sum of `a` in ` a:x 1.00 / a:y -1.00 / a:z 5 / e -5` is the
+    stored value `5` (`1.00 + -1.00 = 0.00`, then the zero short-cut `0.00 + 5 = 5`) on every run. -/
+example : treeNodes [(("",["a"]), Dec.zero), (("",["a","x"]), dd 100 2), (("",["a","y"]), dd (-100) 2),
+      (("",["a","z"]), dd 5 0), (("",["e"]), dd (-5) 0)] 3 (("",["a"]), Dec.zero)
+    = some [⟨["a"], "", Dec.zero, dd 5 0⟩, ⟨["a","x"], "", dd 100 2, dd 100 2⟩,
+            ⟨["a","y"], "", dd (-100) 2, dd (-100) 2⟩, ⟨["a","z"], "", dd 5 0, dd 5 0⟩] := by decide
+
 end C02
 end Tackler
